@@ -3,7 +3,15 @@ From Coq Require Import Strings.String Strings.Byte.
 From Coq Require Import List NArith.
 From Goit Require Import Bytes Obj Tree Index Regex Ignore World Repo IgnoreFacts.
 From Goit Require Import Inv IndexFacts BranchFacts ExactFacts SnapshotFacts StatusFacts.
+From Goit Require Import Bridge.
 Import ListNotations.
+
+(* T0 (tie to the source): every regexp literal of the current Go source denotes
+   the same language, with the same anchoring, as the pattern of the model — proved
+   by running the verified equivalence checker on SrcRegex.v, which is regenerated
+   from /repo on every run (see Bridge.v) *)
+Theorem C13_source_patterns_are_the_models : source_patterns_agree.
+Proof. exact source_patterns. Qed.
 
 (* status is exactly these four filters (by computation) *)
 Theorem C13_status_is_the_filters : forall c,
@@ -106,3 +114,4 @@ Print Assumptions C13_status_is_read_only.
 Print Assumptions C13_status_report_on_every_reachable_repository.
 Print Assumptions C13_unchanged_file_not_reported.
 Print Assumptions C13_identical_rewrite_reports_nothing.
+Print Assumptions C13_source_patterns_are_the_models.
